@@ -90,6 +90,9 @@ fn build_pool() -> Pool {
     let cie_e = s.cie(1, -8, 16, Cfa::new().def_cfa(7, 8).offset(16, 1).offset(6, 2).remember().offset(3, 3).args_size(0x20).restore(16).bytes()); // fails after rules + push
     let cie_f = s.cie(1, -8, 16, Cfa::new().def_cfa_expression(&breg7_8).val_expression(16, &breg7_0).bytes()); // expression CFA
     let cie_g = s.cie(1, -8, 16, Cfa::new().def_cfa(7, 8).offset(16, 1).offset(6, 2).remember().remember().remember().bytes()); // 2 rules, 3 open pushes
+    // fails after changing the bottom row (CFA, argument size, a rule) WITHOUT having pushed:
+    // the context is left "not initialised" with a single, modified row
+    let cie_h = s.cie(1, -8, 16, Cfa::new().def_cfa(7, 8).args_size(0x10).offset(4, 2).restore_state().bytes());
     let mut names = vec![];
     let mut offs = vec![];
     let mut add = |s: &mut FrameSec, name: &'static str, cie: u64, insns: Cfa| {
@@ -126,6 +129,7 @@ fn build_pool() -> Pool {
     // re-uses the bottom row must clear the saved argument size as well
     add(&mut s, "args-size-on-bottom-row(zero-rule-cie)", cie_a, Cfa::new().advance(1).args_size(0x20).advance(1).offset(6, 2));
     add(&mut s, "args-size-on-bottom-row(one-rule-cie)", cie_b, Cfa::new().args_size(0x8).advance(2).args_size(0x18).advance(1));
+    add(&mut s, "cie-fails-after-rules-without-push", cie_h, Cfa::new().advance(1).offset(3, 4));
     let bytes: &'static [u8] = Box::leak(s.e.buf.into_boxed_slice());
     let mut section = DebugFrame::new(bytes, LittleEndian);
     section.set_address_size(8);
@@ -134,7 +138,7 @@ fn build_pool() -> Pool {
         .iter()
         .map(|&o| section.fde_from_offset(&bases, DebugFrameOffset(o as usize), DebugFrame::cie_from_offset).expect("pool FDE must parse"))
         .collect();
-    Pool { bytes, section, bases, fdes, names, cie_offsets: vec![cie_a, cie_b, cie_c, cie_d, cie_e, cie_f, cie_g], fde_offsets: offs }
+    Pool { bytes, section, bases, fdes, names, cie_offsets: vec![cie_a, cie_b, cie_c, cie_d, cie_e, cie_f, cie_g, cie_h], fde_offsets: offs }
 }
 
 // ---------------------------------------------------------------------------
